@@ -887,7 +887,7 @@ def oracle_restart(evs, meta):
 
 
 # ------------------------------------------------------------------ C20: gathering against scripted servers
-STUN_MODES = ["ok", "nat", "nat", "natlate", "nattwice", "sameip", "silent", "garbage", "wrongtid", "err400", "err420", "err500", "err300", "loop300", "err401", "err438"]
+STUN_MODES = ["ok", "nat", "nat", "natlate", "nattwice", "sameip", "silent", "garbage", "wrongtid", "err400", "err420", "err500", "err300", "loop300", "err401", "err438", "badxor", "badxornat"]
 TURN_MODES = ["ok", "ok", "oknat", "oknat", "twice", "silent", "garbage", "wrongtid", "err400", "err403", "err437", "err486", "err500", "err300", "loop300", "turn438", "err401", "err438"]
 TURN_OK = ("ok", "oknat", "twice")
 
